@@ -146,12 +146,11 @@ func flight3Parse(
 			}
 		}
 
-		if !cfg.HasSessionStore {
-			state.SessionID = []byte{}
-		} else {
-			state.SessionID = bytes.Clone(serverHelloMsg.SessionID)
-		}
-
+		// Forget the offered session here, but adopt the ServerHello's session ID
+		// only once the whole flight has arrived: this function is re-entered for
+		// every datagram of the flight, and storing the new ID now made the next
+		// entry mistake the full handshake for a resumption of that very ID.
+		state.SessionID = nil
 		state.MasterSecret = []byte{}
 	}
 
@@ -177,6 +176,11 @@ func flight3Parse(
 		return 0, nil, nil
 	}
 	state.HandshakeRecvSequence = serverFlightPull.NextSequence
+	if !cfg.HasSessionStore {
+		state.SessionID = []byte{}
+	} else {
+		state.SessionID = bytes.Clone(serverHelloMsg.SessionID)
+	}
 
 	if h, ok := serverFlightPull.Messages[handshake.TypeCertificate].(*handshake.MessageCertificate); ok {
 		state.PeerCertificates = util.CloneByteSlices(h.Certificate)
